@@ -137,7 +137,10 @@ func C10_EmitNFTTransfer() {
 
 func C10_EmitMultiTransfer() {
 	o := wireOpt
-	o.MultiK = 0
+	o.MultiK = 1
+	if verif.Thorough() {
+		o.MultiK = 0
+	}
 	o.NoCall = false
 	s := scnMultiTransfer(o)
 	k := len(scnItems)
@@ -225,13 +228,14 @@ func moved(s *Scn, acct *world.Account, key []byte) *big.Int {
 	return new(big.Int).Sub(post, pre)
 }
 
-func parserLedger(s *Scn, fnName string, side int) {
+func parserLedger(s *Scn, fnName string, side int, minArgs int) {
 	p, _ := parsers.NewESDTTransferParser(s.W.Codec)
 	s.Run()
 	if s.Err != nil {
 		verif.Reach("rejected", true)
 		return
 	}
+	callReport(s, fnName, minArgs)
 	res, err := p.ParseESDTTransfers(s.In.CallerAddr, s.In.RecipientAddr, fnName, s.In.Arguments)
 	verif.Assert("parser-accepts-what-ledger-accepted", verif.And(err == nil, res != nil))
 	if err != nil || res == nil {
@@ -282,7 +286,9 @@ func parserLedger(s *Scn, fnName string, side int) {
 		_ = i
 	}
 	verif.Reach("agreed", true)
-	verif.Reach("agreed-multi", len(res.ESDTTransfers) > 1)
+	if fnName == vmcommon.BuiltInFunctionMultiESDTNFTTransfer {
+		verif.Reach("agreed-multi", len(res.ESDTTransfers) > 1)
+	}
 	verif.ObserveU64("n", uint64(len(res.ESDTTransfers)))
 }
 
@@ -309,30 +315,29 @@ func C10_ParserLedgerTransfer() {
 	if s.Snd == nil {
 		side = 2
 	}
-	callReport(s, vmcommon.BuiltInFunctionESDTTransfer, 2)
-	parserLedger(s, vmcommon.BuiltInFunctionESDTTransfer, side)
+	parserLedger(s, vmcommon.BuiltInFunctionESDTTransfer, side, 2)
 }
 
 func C10_ParserLedgerNFTSender() {
 	s := scnNFTTransfer(plOpt)
-	callReport(s, vmcommon.BuiltInFunctionESDTNFTTransfer, 4)
-	parserLedger(s, vmcommon.BuiltInFunctionESDTNFTTransfer, 0)
+	parserLedger(s, vmcommon.BuiltInFunctionESDTNFTTransfer, 0, 4)
 }
 
 func C10_ParserLedgerNFTDest() {
 	o := plOpt
 	o.Side = 2
 	s := scnNFTTransfer(o)
-	callReport(s, vmcommon.BuiltInFunctionESDTNFTTransfer, 4)
-	parserLedger(s, vmcommon.BuiltInFunctionESDTNFTTransfer, 2)
+	parserLedger(s, vmcommon.BuiltInFunctionESDTNFTTransfer, 2, 4)
 }
 
 func C10_ParserLedgerMultiSender() {
 	o := plOpt
 	o.NoCall = !verif.Thorough()
+	if !verif.Thorough() {
+		o.FullAmounts = false
+	}
 	s := scnMultiTransfer(o)
-	callReport(s, vmcommon.BuiltInFunctionMultiESDTNFTTransfer, 2+3*len(scnItems))
-	parserLedger(s, vmcommon.BuiltInFunctionMultiESDTNFTTransfer, 0)
+	parserLedger(s, vmcommon.BuiltInFunctionMultiESDTNFTTransfer, 0, 2+3*len(scnItems))
 }
 
 func C10_ParserLedgerMultiDest() {
@@ -340,6 +345,5 @@ func C10_ParserLedgerMultiDest() {
 	o.Side = 2
 	o.NoCall = !verif.Thorough()
 	s := scnMultiTransfer(o)
-	callReport(s, vmcommon.BuiltInFunctionMultiESDTNFTTransfer, 1+3*len(scnItems))
-	parserLedger(s, vmcommon.BuiltInFunctionMultiESDTNFTTransfer, 2)
+	parserLedger(s, vmcommon.BuiltInFunctionMultiESDTNFTTransfer, 2, 1+3*len(scnItems))
 }
